@@ -33,6 +33,8 @@ type c1719Order struct {
 	Outcome string    `json:"outcome"` // ok | 429 | fail
 	At      time.Time `json:"-"`
 	AtNs    int64     `json:"at_ns"`
+	Seq     int       `json:"-"`               // index of the request in the CA's own log
+	Names   []string  `json:"names,omitempty"` // identifiers of the order (from the CA's log; filled by ordersWithNames)
 }
 
 type c1719Script struct {
@@ -79,6 +81,19 @@ func (env *c1719Env) orders(tag string) []c1719Order {
 	return append([]c1719Order(nil), s.orders...)
 }
 
+// ordersWithNames is orders plus the identifiers each order was for, read from the CAs' request
+// logs (the hook runs before the payload is parsed). Call it when the case's requests are done.
+func (env *c1719Env) ordersWithNames(tag string) []c1719Order {
+	os := env.orders(tag)
+	logs := [][]mockca.Request{env.cas[0].Requests(), env.cas[1].Requests()}
+	for i := range os {
+		if l := logs[os[i].CA]; os[i].Seq < len(l) {
+			os[i].Names = l[os[i].Seq].Identifiers
+		}
+	}
+	return os
+}
+
 func (env *c1719Env) tagOf(c int, kid string) string {
 	for _, a := range env.cas[c].Accounts() {
 		if a.URL == kid {
@@ -110,7 +125,7 @@ func (env *c1719Env) hook(c int) func(*mockca.Request) *mockca.Problem {
 			out = s.perCA[c][k]
 		}
 		s.seen[c]++
-		s.orders = append(s.orders, c1719Order{CA: c, Outcome: out, At: now, AtNs: int64(now.Sub(s.t0))})
+		s.orders = append(s.orders, c1719Order{CA: c, Outcome: out, At: now, AtNs: int64(now.Sub(s.t0)), Seq: q.Seq})
 		switch out {
 		case "429":
 			return mockca.Prob(429, "rateLimited", "too many certificates already issued (scripted)")
